@@ -19,6 +19,10 @@ type VerifQuery struct {
 	Mode        int // 0 buildSeriesQuery, 1 buildTagValuesQuery, 2 buildTagValueIDsQuery
 	Tag         format.MetricMetaTag
 	NumResults  int
+	What        []int // data_model.DigestWhat per slot; nil = one DigestCount
+	MinMaxHost  [2]bool
+	Sort        int // 0 sortNone, 1 sortAscending, 2 sortDescending
+	UtcOffset   int64
 }
 
 func (v *VerifQuery) builder() *queryBuilder {
@@ -30,8 +34,18 @@ func (v *VerifQuery) builder() *queryBuilder {
 		tag:         v.Tag,
 		numResults:  v.NumResults,
 		user:        "verif",
+		minMaxHost:  v.MinMaxHost,
+		sort:        querySort(v.Sort),
+		utcOffset:   v.UtcOffset,
 	}
-	b.what[0] = data_model.DigestSelector{What: data_model.DigestCount}
+	if v.What == nil {
+		b.what[0] = data_model.DigestSelector{What: data_model.DigestCount}
+	}
+	for i, w := range v.What {
+		if i < len(b.what) {
+			b.what[i] = data_model.DigestSelector{What: data_model.DigestWhat(w)}
+		}
+	}
 	return b
 }
 
